@@ -15,6 +15,7 @@ import time
 from fractions import Fraction
 
 from harness import common as C
+from harness import history as H
 from harness import impl
 from harness.translate import t2_subst
 
@@ -136,34 +137,34 @@ def build(c):
     br = c["B"] is not None and c["mode"] in ("all", "rates-only")
     dt = {"id": "dt", "type": "GeneralDataType", "codes": [f"s{i}" for i in range(n)]}
     if kind == "JC69":
-        return SM.JC69.from_json({"id": "m", "type": "JC69"}, {})
+        return H.tracked(SM.JC69, {"id": "m", "type": "JC69"})
     if kind == "GeneralJC69":
-        return SM.GeneralJC69.from_json({"id": "m", "type": "GeneralJC69", "state_count": n}, {})
+        return H.tracked(SM.GeneralJC69, {"id": "m", "type": "GeneralJC69", "state_count": n})
     if kind == "LG":
-        return SM.LG.from_json({"id": "m", "type": "LG"}, {})
+        return H.tracked(SM.LG, {"id": "m", "type": "LG"})
     if kind == "WAG":
-        return SM.WAG.from_json({"id": "m", "type": "WAG"}, {})
+        return H.tracked(SM.WAG, {"id": "m", "type": "WAG"})
     pi = _param("pi", c["pi"], bf)
     if kind == "HKY":
-        return SM.HKY.from_json({"id": "m", "type": "HKY", "frequencies": pi,
-                                 "kappa": _param("kappa", [[k] for k in c["kappa"]], br)}, {})
+        return H.tracked(SM.HKY, {"id": "m", "type": "HKY", "frequencies": pi,
+                                 "kappa": _param("kappa", [[k] for k in c["kappa"]], br)})
     if kind == "GTR":
-        return SM.GTR.from_json({"id": "m", "type": "GTR", "frequencies": pi,
-                                 "rates": _param("rates", c["rates"], br)}, {})
+        return H.tracked(SM.GTR, {"id": "m", "type": "GTR", "frequencies": pi,
+                                 "rates": _param("rates", c["rates"], br)})
     if kind in ("GS", "GN"):
         d = {"id": "m", "type": "x", "data_type": dt, "frequencies": pi, "rates": _param("rates", c["rates"], br)}
         if c["mapping"] is not None:
             d["mapping"] = list(c["mapping"])
         cls = SM.GeneralSymmetricSubstitutionModel if kind == "GS" else SM.GeneralNonSymmetricSubstitutionModel
-        return cls.from_json(d, {})
+        return H.tracked(cls, d)
     if kind == "MG94":
-        return SM.MG94.from_json({
+        return H.tracked(SM.MG94, {
             "id": "m", "type": "MG94",
             "data_type": {"id": "cd", "type": "CodonDataType", "genetic_code": CODE_NAMES[c["code"]]},
             "frequencies": pi,
             "kappa": _param("kappa", [[k] for k in c["kappa"]], br),
             "alpha": _param("alpha", [[k] for k in c["alpha"]], br),
-            "beta": _param("beta", [[k] for k in c["beta"]], br)}, {})
+            "beta": _param("beta", [[k] for k in c["beta"]], br)})
     raise ValueError(kind)
 
 
@@ -758,6 +759,32 @@ def run(tier, seed, replay=None):
             if found_input or k.split(":")[2] not in explained:
                 rep.violation(k, w, rp, found_input)
     rep.timings["compare"] = round(time.time() - t0, 2)
+    # ---- same-object histories: p_t / q after parameter assignments == freshly built model
+    t0 = time.time()
+    hrng = random.Random(seed + 17)
+    nh, hist_found = 0, {}
+    okc = [c for c, o in zip(cases, outs) if not isinstance(o, Exception) and "shape_error" not in o
+           and c["kind"] not in ("JC69", "GeneralJC69", "LG", "WAG")]
+    hrng.shuffle(okc)
+    for c in okc[:(50 if tier == "quick" else 400)]:
+        torch = impl.load()
+        try:
+            m = build(c)
+        except Exception:
+            continue
+        bl = torch.tensor(c["ts"] if c["B"] is not None else c["ts"][0], dtype=torch.float64)
+        obs = lambda o: [o.p_t(bl).detach().tolist(), o.q().detach().tolist()]
+        fs = H.run(m, obs, hrng, reads=[("q", lambda o: o.q()), ("frequencies", lambda o: o.frequencies),
+                                        ("norm", lambda o: o.norm(o.q()) if hasattr(o, "norm") else None)], steps=2)
+        nh += 1
+        for f in fs:
+            k = f"C04:history:{c['kind']}:{'+'.join(sorted(f['assigned']))}"
+            hist_found.setdefault(k, (k, f"after the history {f['history']} p_t/q of the same model object differ from "
+                                         f"those of a freshly built model: {f['on_same_object']} vs {f['fresh_object']}",
+                                      dict(case=c, history=f)))
+    for f in hist_found.values():
+        rep.violation(*f)
+    rep.timings["histories"] = round(time.time() - t0, 2)
     rep.rule = ("substitution models built from JSON: JC69, GeneralJC69(n), HKY, GTR, general symmetric / "
                 "non-symmetric with random mappings (n = 2..8 quick, ..20 thorough), LG, WAG, MG94 over random "
                 "genetic codes; rates/kappa/alpha/beta log-uniform 0.1..10 or 1e-4..1e4, frequencies uniform or "
